@@ -33,6 +33,7 @@ type threadCtx struct {
 	kind     condKind
 	testIdx  int
 	resNames []string // name of the variable that receives result k ("" = temporary)
+	resIdents []*ast.Ident // the caller's identifier that declares it (when this statement declares it)
 	declare  []bool   // that variable has to be declared
 	usedT    bool
 	usedE    bool
@@ -86,6 +87,7 @@ func (in *inliner) rewriteThreaded(list []ast.Stmt, i int, fd *ast.FuncDecl, fil
 	if nres == 0 {
 		return nil, 0, false
 	}
+	in.nameObj = map[string]types.Object{}
 	// shape A: if COND(call) {…}
 	if ifs, ok := list[i].(*ast.IfStmt); ok && ifs.Init == nil && nres == 1 {
 		op, kind, okc := parseCond(ifs.Cond)
@@ -157,6 +159,18 @@ func (in *inliner) rewriteThreaded(list []ast.Stmt, i int, fd *ast.FuncDecl, fil
 		}
 		th.resNames = append(th.resNames, name)
 		th.declare = append(th.declare, decl)
+		var declId *ast.Ident
+		if name != "" {
+			if o := in.info.Defs[id]; o != nil {
+				if decl {
+					declId = id
+				}
+				in.nameObj[name] = o
+			} else if o := in.info.Uses[id]; o != nil {
+				in.nameObj[name] = o
+			}
+		}
+		th.resIdents = append(th.resIdents, declId)
 		if id.Name == opId.Name && id.Name != "_" {
 			th.testIdx = k
 		}
@@ -177,6 +191,20 @@ func containsFuncLit(n ast.Node) bool {
 	found := false
 	ast.Inspect(n, func(m ast.Node) bool {
 		if _, ok := m.(*ast.FuncLit); ok {
+			found = true
+		}
+		return !found
+	})
+	return found
+}
+
+func containsLabel(n ast.Node) bool {
+	if n == nil || reflect.ValueOf(n).IsNil() {
+		return false
+	}
+	found := false
+	ast.Inspect(n, func(m ast.Node) bool {
+		if _, ok := m.(*ast.LabeledStmt); ok {
 			found = true
 		}
 		return !found
@@ -293,7 +321,11 @@ func (in *inliner) tryThread(ce *ast.CallExpr, assign *ast.AssignStmt, fd *ast.F
 	if needT+needE+needIf == 0 {
 		return nil, false
 	}
-	// a branch that contains a function literal is not duplicated (closures are anchored by their order)
+	// a branch that contains a function literal (closures are anchored by their order) or declares a label is not
+	// duplicated
+	if needT+needIf > 1 && containsLabel(th.ifs.Body) || th.ifs.Else != nil && needE+needIf > 1 && containsLabel(th.ifs.Else) {
+		okAll = false
+	}
 	if needT+needIf > 1 && containsFuncLit(th.ifs.Body) {
 		okAll = false
 	}
@@ -336,7 +368,7 @@ func (in *inliner) threadedReturnRewriter(th *threadCtx, res []string, named []s
 		var out []ast.Stmt
 		var lhs []ast.Expr
 		for _, t := range res {
-			lhs = append(lhs, ast.NewIdent(t))
+			lhs = append(lhs, in.ident(t))
 		}
 		var rhs []ast.Expr
 		oc := -1
@@ -359,7 +391,7 @@ func (in *inliner) threadedReturnRewriter(th *threadCtx, res []string, named []s
 				out = append(out, e)
 			}
 		default:
-			var cond ast.Expr = ast.NewIdent(res[th.testIdx])
+			var cond ast.Expr = in.ident(res[th.testIdx])
 			switch th.kind {
 			case condFalsy:
 				cond = &ast.UnaryExpr{Op: token.NOT, X: cond}
